@@ -21,12 +21,16 @@ pub struct Case {
     pub src_len: Option<u64>,
     pub max_live: usize,
     pub ops: Vec<Op>,
+    /// the `Bus` handle itself is dropped before the operation with this index (its outputs live on; later sends are skipped)
+    #[serde(default)]
+    pub drop_bus_at: Option<usize>,
 }
 
 pub fn check(c: &Case, st: &mut Stats) -> CheckResult {
     let counters = Counters::new();
     let probe: Probe<f64> = Probe::new(c.src_len, counters.clone());
-    let bus = probe.bus();
+    let mut bus = Some(probe.bus());
+    let mut bus_dropped_with_lag = false;
     // model
     let mut p: u64 = 0; // frames pulled from the source
     let mut live: Vec<(Output<Probe<f64>>, u64)> = Vec::new(); // (output, absolute position)
@@ -35,11 +39,16 @@ pub fn check(c: &Case, st: &mut Stats) -> CheckResult {
     let mut reattached = false;
     let mut ever_had_output = false;
     for (k, op) in c.ops.iter().enumerate() {
+        if c.drop_bus_at == Some(k) {
+            bus_dropped_with_lag = live.iter().any(|(_, pos)| *pos < p);
+            bus = None;
+        }
         match op {
             Op::Send => {
-                if live.len() >= c.max_live {
-                    continue;
-                }
+                let bus = match &bus {
+                    Some(b) if live.len() < c.max_live => b,
+                    _ => continue,
+                };
                 if live.iter().any(|(_, pos)| *pos < p) {
                     send_while_lagging = true;
                 }
@@ -94,7 +103,10 @@ pub fn check(c: &Case, st: &mut Stats) -> CheckResult {
             ensure!(ex == exp, "after op #{} {:?}: live output {} is_exhausted() = {}, expected {}", k, op, j, ex, exp);
         }
         let exp_backlog = live.iter().map(|(_, pos)| p - *pos).max().unwrap_or(0);
-        let backlog = bus.verif_backlog_len() as u64;
+        let backlog = match &bus {
+            Some(b) => b.verif_backlog_len() as u64,
+            None => continue,
+        };
         ensure!(
             backlog == exp_backlog,
             "after op #{} {:?}: backlog holds {} frames, but the slowest live output lags {} (live positions {:?}, P = {})",
@@ -106,6 +118,7 @@ pub fn check(c: &Case, st: &mut Stats) -> CheckResult {
     st.class_if(dropped_unique_slowest, "drop of the unique slowest output");
     st.class_if(reattached, "re-attachment after all outputs were dropped");
     st.class_if(c.src_len.is_some(), "finite source");
+    st.class_if(bus_dropped_with_lag && c.drop_bus_at.map_or(false, |k| k < c.ops.len()), "bus handle dropped while an output lags");
     Ok(())
 }
 
@@ -146,7 +159,7 @@ pub fn op_strategy(max_live: usize) -> impl Strategy<Value = Op> {
 }
 
 pub fn case_strategy(max_ops: usize) -> impl Strategy<Value = Case> {
-    (1usize..=6, prop_oneof![2 => Just(None), 1 => (0u64..60).prop_map(Some)]).prop_flat_map(move |(max_live, src_len)| {
+    (1usize..=6, prop_oneof![2 => Just(None), 1 => (0u64..60).prop_map(Some)], 0usize..4000).prop_flat_map(move |(max_live, src_len, drop_bus)| {
         proptest::collection::vec((op_strategy(max_live), 1usize..6, any::<bool>()), 0..max_ops / 3).prop_map(move |runs| {
             let mut ops = Vec::new();
             for (op, n, lockstep) in runs {
@@ -168,7 +181,8 @@ pub fn case_strategy(max_ops: usize) -> impl Strategy<Value = Case> {
                 }
             }
             ops.truncate(max_ops);
-            Case { src_len, max_live, ops }
+            let drop_bus_at = if drop_bus % 4 == 0 && !ops.is_empty() { Some((drop_bus / 4) % ops.len()) } else { None };
+            Case { src_len, max_live, ops, drop_bus_at }
         })
     })
 }
@@ -177,20 +191,28 @@ pub fn run(ctx: &mut Ctx) {
     ctx.set_rule(
         "cases are (source length or infinite, limit on simultaneously live outputs, sequence of send / next(output i) / drop(output i)); every applicable operation sequence of \
          every length up to 9 (thorough 11) over at most 3 live outputs, generated constructively, against an infinite and a 3-frame source; proptest sequences of up to 300 operations over up to 6 live \
-         outputs with run-length structure (lock-step stretches, one output racing ahead, drops, re-attachment); non-trivial: a send while another output lags, a drop of the unique slowest \
+         outputs with run-length structure (lock-step stretches, one output racing ahead, drops, re-attachment); in a quarter of the random cases, and after the last send of every enumerated sequence, the Bus handle itself is dropped while its outputs live on; non-trivial: a send while another output lags, a drop of the unique slowest \
          output, or re-attachment after every output was dropped",
     );
     ctx.assume("model: P = frames pulled from the source, one absolute position per live output (initialised to P at send); after EVERY operation: probe pull count == P, pending_frames == P - position, is_exhausted, and (via the cfg(rustaudio_dasp_verif) hook Bus::verif_backlog_len) backlog == P - min position");
-    for c in ["send while another output lags", "drop of the unique slowest output", "re-attachment after all outputs were dropped"] {
+    for c in ["send while another output lags", "drop of the unique slowest output", "re-attachment after all outputs were dropped", "bus handle dropped while an output lags"] {
         ctx.require_class(c);
     }
     let max_len = ctx.pick(9usize, 11);
     let mut cases = Vec::new();
     for len in 0..=max_len {
         for ops in all_sequences(len, 3) {
-            cases.push(Case { src_len: None, max_live: 3, ops: ops.clone() });
+            cases.push(Case { src_len: None, max_live: 3, ops: ops.clone(), drop_bus_at: None });
             if len <= max_len - 1 {
-                cases.push(Case { src_len: Some(3), max_live: 3, ops });
+                cases.push(Case { src_len: Some(3), max_live: 3, ops: ops.clone(), drop_bus_at: None });
+            }
+            // the Bus handle goes out of scope right after the last send
+            if len <= max_len - 1 {
+                if let Some(last_send) = ops.iter().rposition(|o| *o == Op::Send) {
+                    if last_send + 1 < ops.len() {
+                        cases.push(Case { src_len: None, max_live: 3, ops, drop_bus_at: Some(last_send + 1) });
+                    }
+                }
             }
         }
     }
